@@ -38,6 +38,7 @@ on the values that can reach it from the selected functions):
   `RecursionError`.  The equivalence theorems show that this never happens on the values of the model's types.
 * `hash_sym` keeps `hash(v)` symbolic as `("__hash__", v)`; `src.call` patches `hash` in the module under test alike.
 * `str.replace` with an empty pattern is outside the run-time.
+* compiled regular expressions resolved to regenerated data, full `str.lower`, sets: `PkgModel/PyRx.lean`.
 -/
 namespace PyRt
 open Py
@@ -957,5 +958,12 @@ def zip2 (a b : PyVal) : M PyVal := do
 /-- `x in {c1, c2, …}` for a set display of constants (given as a tuple): an unhashable `x` is `TypeError` -/
 def contains_set (a x : PyVal) : M Bool :=
   if !hashable x then throw typeError else contains a x
+/-! ## x2: additions of the second round (more primitives live in `PkgModel/PyRx.lean`) -/
+
+/-- unary minus on ints / bools -/
+def neg (a : PyVal) : M PyVal :=
+  match asInt a with
+  | some i => pure (.int (-i))
+  | Option.none => throw typeError
 
 end PyRt
